@@ -180,7 +180,14 @@ class Trace:
         return truth
 
 
-_MODELLED = {"startswith", "endswith"}
+def _empty_if(L):
+    """Sigma* if the empty string is in L, the empty language otherwise (decided by z3)."""
+    sol = z3.Solver()
+    sol.add(z3.InRe(z3.StringVal(""), L))
+    return z3.Star(ANY()) if sol.check() == z3.sat else z3.Empty(z3.ReSort(z3.StringSort()))
+
+
+_MODELLED = {"startswith", "endswith", "lstrip", "rstrip", "strip", "removeprefix", "removesuffix"}
 _PASS = {"__class__", "__str__", "__repr__", "__format__", "__hash__", "__len__", "__eq__", "__ne__", "__contains__",
          "__new__", "__init__", "__getattribute__", "__dir__", "__doc__", "__reduce__", "__reduce_ex__", "__sizeof__",
          "__subclasshook__", "__init_subclass__", "__setattr__", "__delattr__", "__getnewargs__", "__iter__",
@@ -192,30 +199,88 @@ class TrackedStr(str):
     """The input under analysis: a real ``str`` whose inspecting methods log the
     corresponding z3 literal; anything not modelled marks the run inconclusive."""
 
-    def __new__(cls, value, trace):
+    def __new__(cls, value, trace, tf=None):
         o = super().__new__(cls, value)
         o._t = trace
+        # maps a language of *this* string to the language of the original input
+        o._tf = tf or (lambda L: L)
         return o
+
+    def _member(self, L, truth):
+        return self._t.log(z3.InRe(self._t.var, self._tf(L)), truth)
+
+    def _derive(self, value, tf):
+        outer = self._tf
+        return TrackedStr(value, self._t, lambda L: outer(tf(L)))
 
     def startswith(self, prefix, *a):
         r = str.startswith(self, prefix, *a)
         if a or not isinstance(prefix, str):
             self._t.problems.append("startswith with offsets/tuple")
             return r
-        return self._t.log(z3.InRe(self._t.var, z3.Concat(z3.Re(_S(prefix)), z3.Star(ANY()))), r)
+        return self._member(z3.Concat(z3.Re(_S(prefix)), z3.Star(ANY())), r)
 
     def endswith(self, suffix, *a):
         r = str.endswith(self, suffix, *a)
         if a or not isinstance(suffix, str):
             self._t.problems.append("endswith with offsets/tuple")
             return r
-        return self._t.log(z3.InRe(self._t.var, z3.Concat(z3.Star(ANY()), z3.Re(_S(suffix)))), r)
+        return self._member(z3.Concat(z3.Star(ANY()), z3.Re(_S(suffix))), r)
 
     def __eq__(self, o):
         r = str.__eq__(self, o)
         if isinstance(o, str):
-            return self._t.log(z3.InRe(self._t.var, z3.Re(_S(str(o)))), r is True)
+            return self._member(z3.Re(_S(str(o))), r is True)
         return r
+
+    # ---- derived strings whose languages map back to the input by a regular transformation
+    @staticmethod
+    def _chars(chars):
+        if chars is None:
+            chars = " \t\n\r\x0b\x0c"       # ASCII whitespace only: wider Unicode whitespace is not modelled
+        cs = [z3.Re(_S(c)) for c in chars]
+        return z3.Union(*cs) if len(cs) > 1 else cs[0]
+
+    def lstrip(self, chars=None):
+        if chars is None:
+            self._t.problems.append("lstrip() of Unicode whitespace")
+        C = self._chars(chars)
+        return self._derive(str.lstrip(self, chars),
+                            lambda L: z3.Concat(z3.Star(C), z3.Intersect(L, z3.Complement(z3.Concat(C, z3.Star(ANY()))))))
+
+    def rstrip(self, chars=None):
+        if chars is None:
+            self._t.problems.append("rstrip() of Unicode whitespace")
+        C = self._chars(chars)
+        return self._derive(str.rstrip(self, chars),
+                            lambda L: z3.Concat(z3.Intersect(L, z3.Complement(z3.Concat(z3.Star(ANY()), C))), z3.Star(C)))
+
+    def strip(self, chars=None):
+        return self.lstrip(chars).rstrip(chars)
+
+    def removeprefix(self, p):
+        P = z3.Concat(z3.Re(_S(p)), z3.Star(ANY()))
+        return self._derive(str.removeprefix(self, p),
+                            lambda L: z3.Union(z3.Concat(z3.Re(_S(p)), L), z3.Intersect(L, z3.Complement(P))))
+
+    def removesuffix(self, p):
+        P = z3.Concat(z3.Star(ANY()), z3.Re(_S(p)))
+        return self._derive(str.removesuffix(self, p),
+                            lambda L: z3.Union(z3.Concat(L, z3.Re(_S(p))), z3.Intersect(L, z3.Complement(P))))
+
+    def __getitem__(self, i):
+        if isinstance(i, slice) and i.step in (None, 1) and i.stop is None and isinstance(i.start, int) and i.start >= 0:
+            k = i.start
+            def tf(L, k=k):
+                long = z3.Concat(z3.Loop(ANY(), k, k), L) if k else L
+                if k == 0:
+                    return long
+                # strings shorter than k give "": they are in the preimage iff the empty string is in L
+                short = z3.Intersect(z3.Loop(ANY(), 0, k - 1), _empty_if(L))
+                return z3.Union(long, short)
+            return self._derive(str.__getitem__(self, i), tf)
+        self._t.problems.append("indexing/slicing of the input")
+        return str.__getitem__(self, i)
 
     def __ne__(self, o):
         r = self.__eq__(o)
@@ -225,20 +290,16 @@ class TrackedStr(str):
 
     def __contains__(self, sub):
         r = str.__contains__(self, sub)
-        return self._t.log(z3.InRe(self._t.var, z3.Concat(z3.Star(ANY()), z3.Re(_S(sub)), z3.Star(ANY()))), r)
+        return self._member(z3.Concat(z3.Star(ANY()), z3.Re(_S(sub)), z3.Star(ANY())), r)
 
     def __len__(self):
         n = str.__len__(self)
-        self._t.log(z3.InRe(self._t.var, z3.Loop(ANY(), n, n)) if n else z3.InRe(self._t.var, EPS), True)
+        self._member(z3.Loop(ANY(), n, n) if n else EPS, True)
         return n
 
     def __iter__(self):
         self._t.problems.append("iteration over the input")
         return str.__iter__(self)
-
-    def __getitem__(self, i):
-        self._t.problems.append("indexing/slicing of the input")
-        return str.__getitem__(self, i)
 
 
 def _unmodelled(name):
@@ -298,7 +359,7 @@ class PatternShim:
             except Unsupported as ex:
                 t.problems.append("regex not translated: %s" % ex)
                 return r
-            t.log(z3.InRe(t.var, L), r is not None)
+            t.log(z3.InRe(t.var, s._tf(L)), r is not None)
             t.patterns = getattr(t, "patterns", []) + [(self._real.pattern, mode)]
             return MatchShim(r, t) if r is not None else None
         if isinstance(s, DerivedStr):
